@@ -24,6 +24,9 @@ CONSTRUCTORS = ['Seq', 'List', 'Left', 'Right', 'Opt', 'Some', 'Sep', 'Choice', 
 # locals and parameters of the runtime's own functions, and the lambda parameter the renderer uses
 RUNTIME_LOCALS = ['text', 'pos', 'fullparse', 'node', 'stack', 'memo', 'key', 'gtor', 'result', 'visited', 'callbacks',
                   'field', 'child', 'parent', 'kw', 'other', 'index', 'column', 'message', 'start_pos', 'v_']
+# identifiers that merely START with a word of the grammar language
+LANGUAGE_PREFIXES = ['letter', 'Nonempty', 'Truely', 'Falsey', 'wherever', 'inward', 'classy', 'passing', 'ignoreme',
+                     'requiresx', 'betweenx', 'overridex', 'extendsx', 'grammarx', 'leftx', 'mixfixx', 'infixed', 'superb']
 PLAIN = ['fresh', 'Fresh', 'x9', 'CamelCase', 'snake_case', 'ALLCAPS']
 # documented API of a generated module (the property excludes these) and words the grammar language itself reserves
 API = {'parse', 'Infix', 'Prefix', 'Postfix', 'ParseError', 'PartialParseError', 'InputError', 'ParsedObject', 'ParsingRule',
@@ -97,7 +100,7 @@ def run(chk):
                         'known findings are identified by (pool name, role, failure signature)']
     taken = {'Item', 'Word', 'Pair', 'key', 'val', 'gap', 'Wrap', 'p', 'tmp', 'Box', 'q', 'it', 'n', 'stars', 'start', 'm', 'xs',
              'Cnt', 'more', 'Zlast'}
-    fixed = [n for n in dict.fromkeys(TEMPORARIES + BUILTINS + CONSTRUCTORS + RUNTIME_LOCALS + PLAIN) if usable(n, taken)]
+    fixed = [n for n in dict.fromkeys(TEMPORARIES + BUILTINS + CONSTRUCTORS + RUNTIME_LOCALS + LANGUAGE_PREFIXES + PLAIN) if usable(n, taken)]
     if chk.tier == 'quick':
         fixed = fixed[::1]
     cases = enumerate_cases(chk, fixed, 'MC_C20(fixed pool)')
